@@ -1,10 +1,16 @@
 """C03 - rules are evaluated with the documented first-match semantics."""
+import concurrent.futures as cf
 import itertools
 import random
+import re
 import vlib
 import gen_rules
 import evalcommon as ec
 import confshape
+import proc
+import world
+import worldscen as ws
+from props.c13 import parse_helper
 
 # Witnesses of the pinned finding (evaluation decided by a pass/action pending from an enclosing block).
 WITNESSES = {
@@ -69,6 +75,410 @@ def valid(rs):
     return all(r[0] == 'acts' or (has_action(r[2]) and valid(r[2])) for r in rs)
 
 
+# ------------------------------------------------------------------------------------------------------------
+# process level (real binary under the shim): the actions of the rule that fired are performed, in order, on THE
+# message wherever earlier actions of the same rule put it - and on nothing else (bystanders, non-regular entries)
+# ------------------------------------------------------------------------------------------------------------
+R = '@R@'
+LABEL_LINE = b'X-Label: lbl\n'
+ADDED_LINE = b'X-Added: v1\n'
+# key -> (configuration text, code of the action for `S dest` (None: the action carries no destination))
+PACTS = {
+    'moveA': ('move "%s/dstA"' % R, b'm' + ('%s/dstA' % R).encode()),
+    'new': ('flag new', b'fnew'),
+    'cur': ('flag !new', b'fcur'),
+    'flags': ('flags "F"', b'FF'),
+    'label': ('label "lbl"', None),
+    'hdr': ('add-header "X-Added" "v1"', None),
+    'exec': ('exec { "%s" "plain" }' % ws.HELPER, None),
+    'execin': ('exec stdin { "%s" "stdin" }' % ws.HELPER, None),
+    'discard': ('discard', None),
+}
+NEUTRAL = b'F'      # `flags ""`: an entry of the match list that is neither move nor flag (label, exec, the MATCH/PASS entries between two rules)
+SUBJECT = {'new': '1.host', 'cur': '1.host:2,RS'}
+BYSTANDER = {'new': ('cur', '2.host:2,S'), 'cur': ('new', '2.host')}
+PPATS = [('^99$', '')]
+MUTATING = {'renameat', 'unlinkat', 'unlink', 'utimensat', 'mkdir', 'rmdir', 'write', 'fprintf'}
+UNIT_CHUNK = 8000   # unit-level cases are evaluated, compared and dropped in chunks of this size (memory stays flat)
+FAILED = []         # every failing sequence of this run (only the first few become findings), for the summary in the coverage
+
+
+def name_letters(name):
+    return set(name.rsplit(':2,', 1)[1]) if ':2,' in name else set()
+
+
+def with_headers(data, lines):
+    head, body = data.split(b'\n\n', 1)
+    return head + b'\n' + b''.join(lines) + b'\n' + body
+
+
+def seq_jobs(tier, rng):
+    """(subdir, action keys, split): every ordered pair of distinct actions and a sample of the triples (thorough: all triples and a
+    sample of the quadruples), as one rule (split None) and as two rules joined by `pass` after `split` actions.  `discard` cannot
+    be combined with another action in one rule: it only occurs as the single action of the rule after the pass."""
+    keys = [k for k in PACTS if k != 'discard']
+    seqs = [(a,) for a in PACTS]
+    seqs += list(itertools.permutations(keys, 2)) + [(a, 'discard') for a in keys]
+    triples = list(itertools.permutations(keys, 3)) + [p + ('discard',) for p in itertools.permutations(keys, 2)]
+    if tier == 'quick':
+        # the witnesses of known finding F23 are part of every run
+        wit = [('label', 'execin', 'hdr'), ('hdr', 'execin', 'label')]
+        triples = wit + [t for t in rng.sample(triples, 110) if t not in wit]
+    else:
+        quads = list(itertools.permutations(keys, 4)) + [p + ('discard',) for p in itertools.permutations(keys, 3)]
+        triples += rng.sample(quads, 600)
+    seqs += triples
+    jobs = []
+    for sub in ('new', 'cur'):
+        for s in seqs:
+            if s[-1] == 'discard':
+                if len(s) > 1:
+                    jobs.append((sub, s, len(s) - 1))
+                else:
+                    jobs.append((sub, s, None))
+                continue
+            jobs.append((sub, s, None))
+            if len(s) == 2:
+                jobs.append((sub, s, 1))
+            elif len(s) > 2:
+                jobs.append((sub, s, rng.randrange(1, len(s))))
+    jobs = [j + (False,) for j in jobs]
+    # the destination maildir on another device (renameat fails with EXDEV: the message is copied and the original removed)
+    exdev = [j[:3] + (True,) for j in jobs if 'moveA' in j[1] and 2 <= len(j[1]) <= 3]
+    return jobs + (rng.sample(exdev, 40) if tier == 'quick' else exdev)
+
+
+def dest_request(sub, seq, split, exdev=False):
+    """`S dest` request (Spec.destOK, Spec.destPath) for the entries the sequence puts on the match list."""
+    codes = []
+    for j, a in enumerate(seq):
+        if split is not None and j == split:
+            codes.append(NEUTRAL)
+        codes.append(PACTS[a][1] or NEUTRAL)
+    while codes and codes[-1] == NEUTRAL:
+        codes.pop()
+    return ' '.join(['S', 'dest', vlib.hexs(('%s/src' % R).encode()), vlib.hexs(sub.encode()), vlib.hexs(SUBJECT[sub].encode())] +
+                    [vlib.hexs(c) for c in codes])
+
+
+def seq_config(sub, seq, split):
+    cond = 'new' if sub == 'new' else '! new'
+    # F21: a message taken from new to cur of the walked maildir is met again when cur is read: every rule is restricted to the
+    # subdirectory the subject starts in (as C09 does)
+    lines = ['\tmatch header "X-Id" /^99$/ move "%s/dstB"' % R]
+    if split is None:
+        lines.append('\tmatch %s %s' % (cond, ' '.join(PACTS[a][0] for a in seq)))
+    else:
+        lines.append('\tmatch %s %s pass' % (cond, ' '.join(PACTS[a][0] for a in seq[:split])))
+        lines.append('\tmatch %s %s' % (cond, ' '.join(PACTS[a][0] for a in seq[split:])))
+    # first match wins: never reached for the subject
+    lines.append('\tmatch %s move "%s/dstB"' % (cond, R))
+    return 'maildir "%s/src" {\n%s\n}\n' % (R, '\n'.join(lines))
+
+
+def seq_spec(sub, seq, split, exdev=False):
+    tree = {}
+    for d in ('src', 'dstA', 'dstB'):
+        tree.update(proc.maildir_tree(d, {}))
+    tree['src/%s/%s' % (sub, SUBJECT[sub])] = ws.msg(1)
+    tree['src/%s/%s' % BYSTANDER[sub]] = ws.msg(2)
+    return ws.Spec('seq', seq_config(sub, seq, split), PPATS, tree=tree, devmap=('%s/dstA' % R,) if exdev else ())
+
+
+def touched(r, basename, names=MUTATING):
+    """Traced calls of the kinds `names` (or an openat that creates) one of whose path arguments names `basename`."""
+    hits = []
+    for t in r.calls():
+        creating = t['name'] == 'openat' and 'O_CREAT' in t['args'].get('flags', '')
+        if t['name'] not in names and not creating:
+            continue
+        for k in ('path', 'old', 'new'):
+            if k in t['args'] and proc.unescape(t['args'][k]).rsplit(b'/', 1)[-1] == basename.encode('latin-1'):
+                hits.append(t['raw'][:160])
+    return hits
+
+
+def judge_seq(sub, seq, destpath, scen, r, exdev=False):
+    """The documented meaning of the action list against the real final tree, the helper's record and the trace.
+    -> [(finding class, text)]; class 'unlisted' unless the deviation is exactly the known finding F23."""
+    probs = []
+    known = []
+    name = SUBJECT[sub]
+    rel0 = 'src/%s/%s' % (sub, name)
+    orig = scen.initial[rel0]
+    files = {rel: v for rel, v in r.final.items() if v[0] == 'file' and re.search(r'(^|/)(new|cur)/[^/]+$', rel)}
+    if r.status != 0:
+        probs.append('exit status %r although every selected action is possible: %s' % (r.status, r.err[-300:].decode('latin-1').replace(scen.root, R)))
+    where = [rel for rel, v in files.items() if ws.msg_id(v[1]) == 1]
+    rewrite = [LABEL_LINE if a == 'label' else ADDED_LINE for a in seq if a in ('label', 'hdr')]
+    if seq[-1] == 'discard':
+        if where:
+            probs.append('discarded message still exists: %s' % where)
+    elif len(where) != 1:
+        probs.append('the message exists %d times after the run: %s' % (len(where), where))
+    else:
+        rel = where[0]
+        kind, data, mt = files[rel]
+        fdir, fname = rel.rsplit('/', 1)
+        want_dir = destpath.replace(R + '/', '')
+        if fdir != want_dir:
+            probs.append('the message is in %s, the documented place after %s is %s' % (fdir, ' '.join(seq), want_dir))
+        fsub = want_dir.rsplit('/', 1)[1]
+        want = name_letters(name) | ({'F'} if 'flags' in seq else set())
+        if sub == 'new' and fsub == 'cur':
+            want.add('S')
+        if sub == 'cur' and fsub == 'new':
+            want.discard('S')
+        if fdir == want_dir and name_letters(fname) != want:
+            # (found by this stage on the pinned tree and repaired there: maildir_move put the S of a subdirectory change into the generated
+            # NAME only, a label / add-header that followed regenerated the name from the flags the message had when it was read)
+            probs.append('flags of the final name %r are not %r (message went %s -> %s)' % (fname, ''.join(sorted(want)), sub, fsub))
+        wants = [with_headers(orig[1], p) for p in set(itertools.permutations(rewrite))] if rewrite else [orig[1]]
+        if data not in wants:
+            probs.append('content after %s is %r, expected %r' % (' '.join(seq), data[:200], wants[0][:200]))
+        if not rewrite and mt != orig[2]:
+            probs.append('modification time changed (%s -> %s) although the message was not rewritten' % (orig[2], mt))
+        if not rewrite and not any(PACTS[a][1] for a in seq) and rel != rel0:
+            probs.append('the message was renamed to %s although no action moves it' % rel)
+    # the helper saw the message as it was at that point
+    recs = [parse_helper(l) for l in r.helper]
+    wantrecs, seen = [], []
+    for a in seq:
+        if a == 'label':
+            seen.append(LABEL_LINE)
+        elif a == 'hdr':
+            seen.append(ADDED_LINE)
+        elif a == 'exec':
+            wantrecs.append(([b'plain'], b''))
+        elif a == 'execin':
+            wantrecs.append(([b'stdin'], with_headers(orig[1], seen) if seen else orig[1]))
+    got = [(argv, stdin) for argv, stdin, fds, target in recs]
+    if got != wantrecs:
+        # known finding F23: matches_interpolate sets the headers of ALL label / add-header actions in memory before anything is
+        # executed, so the first action that writes the message again (label, add-header, a move across devices) already writes the
+        # headers of later ones.  Identified by: every command ran, in order, with its arguments, and what an `exec stdin` got is the
+        # documented content or - after an action that can write the message - the documented content plus exactly the headers of ALL
+        # later label / add-header actions; nothing else differs.
+        allhdr = [with_headers(orig[1], p) for p in set(itertools.permutations(rewrite))] if rewrite else [orig[1]]
+        f23 = len(got) == len(wantrecs)
+        written = False
+        k = 0
+        for a in seq:
+            if a in ('label', 'hdr') or (exdev and PACTS[a][1]):
+                written = True
+            elif a in ('exec', 'execin') and f23:
+                if got[k][0] != wantrecs[k][0]:
+                    f23 = False
+                elif a == 'exec' and got[k][1] != b'':
+                    f23 = False
+                elif a == 'execin' and got[k][1] != wantrecs[k][1] and not (written and got[k][1] in allhdr):
+                    f23 = False
+                k += 1
+        known.append(('rewrite-applies-later-headers' if f23 else 'unlisted',
+                      'the commands ran as %r, documented: %r' % ([(a, s[:200]) for a, s in got], [(a, s[:200]) for a, s in wantrecs])))
+    # nothing else is touched: the message no rule matches keeps name, content and timestamps; no stray files
+    brel = 'src/%s/%s' % BYSTANDER[sub]
+    if r.final.get(brel) != scen.initial[brel]:
+        probs.append('the message no rule matches (%s) was changed: %r' % (brel, r.final.get(brel, ('gone',))[0]))
+    hits = touched(r, BYSTANDER[sub][1])
+    if hits:
+        probs.append('mutating call on the message no rule matches: %s' % [h.replace(scen.root, R) for h in hits[:2]])
+    for rel, v in files.items():
+        if ws.msg_id(v[1]) not in (1, 2):
+            probs.append('stray file %s' % rel)
+    if [rel for rel, v in files.items() if ws.msg_id(v[1]) == 2] != [brel]:
+        probs.append('the message no rule matches exists elsewhere')
+    if probs:
+        # anything else wrong: nothing is explained away
+        return [('unlisted', p) for p in probs] + [('unlisted', t) for c, t in known]
+    return known
+
+
+def sequence_stage(rep, tools, W, rng):
+    jobs = seq_jobs(rep.tier, rng)
+    answers = vlib.run_batch([vlib.driver_path()], [dest_request(*j) for j in jobs])
+    todo = []
+    outside = 0
+    for j, a in zip(jobs, answers):
+        ok, path = a.split(' ')
+        if ok != '1':
+            outside += 1        # outside Spec.destOK: known finding F12 (property C09), not generated here
+            continue
+        todo.append((j, vlib.unhex(path).decode('latin-1')))
+
+    def one(item):
+        (sub, seq, split, exdev), destpath = item
+        spec = seq_spec(sub, seq, split, exdev)
+        scen = spec.build(tools)
+        try:
+            r = scen.run()
+            probs = judge_seq(sub, seq, destpath, scen, r, exdev)
+            req, tr, notes = W.request(scen, spec.pats, r)
+            return {'sub': sub, 'seq': list(seq), 'split': split, 'exdev': exdev, 'problems': probs, 'req': req, 'scen': scen, 'r': r,
+                    'config': scen.config.replace(scen.root, R), 'documented_place': destpath}
+        finally:
+            scen.cleanup()
+
+    with cf.ThreadPoolExecutor(vlib.NCPU) as ex:
+        results = list(ex.map(one, todo))
+    verdicts = W.verdict([x['req'] for x in results])
+    stats = {'runs': len(results), 'outside_destOK_not_generated': outside, 'failing': 0, 'nonconforming': 0,
+             'by_length': {}, 'with_pass': sum(1 for x in results if x['split'] is not None),
+             'across_devices': sum(1 for x in results if x['exdev'])}
+    corr = []
+    nrep = 0
+    for x, v in zip(results, verdicts):
+        stats['by_length'][len(x['seq'])] = stats['by_length'].get(len(x['seq']), 0) + 1
+        desc = {'harness': 'process (real binary under the shim)', 'family': 'sequence', 'source_subdir': x['sub'], 'actions': x['seq'],
+                'pass_after': x['split'], 'dstA_on_other_device': x['exdev'], 'config': x['config'], 'documented_place': x['documented_place']}
+        unlisted = [t for c, t in x['problems'] if c == 'unlisted']
+        if unlisted:
+            stats['failing'] += 1
+            FAILED.append((x['sub'], x['seq'], x['split'], unlisted))
+            if nrep < 6:
+                nrep += 1
+                rep.finding('unlisted', dict(desc, what=unlisted[:6]))
+            continue
+        for c, t in x['problems']:
+            stats[c] = stats.get(c, 0) + 1
+            rep.finding(c, dict(desc, what=[t]))
+        kind, detail = world.compare(x['scen'], x['r'], v)
+        if kind != 'ok':
+            stats['nonconforming'] += 1
+            corr.append(dict(desc, conform=kind, detail=detail[:400]))
+    if corr and not rep.violations:
+        rep.violation({'obligation': 'correspondence: the real run of an action sequence does not follow Model.mainP / ends in a different state; '
+                                     'the documented meaning evaluated on the real tree found nothing wrong',
+                       'disagreements': len(corr), 'examples': corr[:6]}, False)
+    return stats
+
+
+# ---- entries of new/ and cur/ that are not regular files ----------------------------------------------------
+
+SPECIALS = {
+    'src/new/3.host': ('symlink', '%s/outside/note.eml' % R),          # to a regular file outside the maildir (absolute)
+    'src/new/4.host': ('symlink', '../cur/2.host:2,S'),                # to a message of the same maildir (relative)
+    'src/cur/5.host:2,S': ('symlink', 'nowhere'),                      # dangling
+    'src/cur/7.host:2,S': ('fifo',),
+    'src/new/8.host': ('symlink', '%s/outside' % R),                   # to a directory
+    'src/cur/9.host:2,S': ('symlink', '%s/src/new/1.host' % R),        # to a message of the same maildir (absolute)
+}
+NONREG_RULES = {
+    'move': ('match all move "%s/dstA"' % R, 'dstA'),
+    'discard': ('match all discard', None),
+    'label': ('match all label "lbl"', 'src'),
+    'add-header': ('match all add-header "X-Added" "v1"', 'src'),
+    'flags': ('match all flags "F"', 'src'),
+    'exec-stdin': ('match all exec stdin { "%s" "stdin" }' % ws.HELPER, 'src'),
+}
+
+
+def nonreg_spec(rule):
+    tree = {}
+    for d in ('src', 'dstA'):
+        tree.update(proc.maildir_tree(d, {}))
+    tree['src/new/1.host'] = ws.msg(1)
+    tree['src/cur/2.host:2,S'] = ws.msg(2)
+    tree['outside/note.eml'] = ws.msg(31)
+    tree['src/new/6.host'] = None                                      # a sub-directory with a file in it
+    tree['src/new/6.host/inner'] = ws.msg(36)
+    tree.update(SPECIALS)
+    return ws.Spec('nonregular-' + rule, 'maildir "%s/src" {\n\t%s\n}\n' % (R, NONREG_RULES[rule][0]), [], tree=tree)
+
+
+def judge_nonreg(rule, scen, r, d):
+    """Entries that are not regular files are not messages: untouched by the real run `r`, not listed by the dry run `d`, named by no
+    call other than readdir / fstatat; the regular files next to them are sorted as usual."""
+    probs = []
+    if r.status != 0:
+        probs.append('exit status %r: %s' % (r.status, r.err[-300:].decode('latin-1').replace(scen.root, R)))
+    keep = list(SPECIALS) + ['outside/note.eml', 'src/new/6.host', 'src/new/6.host/inner']
+    for rel in keep:
+        for run, what in ((r, 'run'), (d, 'dry run')):
+            if run.final.get(rel) != scen.initial[rel]:
+                a, b = scen.initial[rel], run.final.get(rel, ('gone', None, None))
+                probs.append('%s (%s%s) after the %s: %s' % (rel, a[0], (' -> ' + a[1].decode('latin-1').replace(scen.root, R)) if a[0] == 'symlink' else '', what,
+                                                            'gone' if b[0] == 'gone' else 'now %s%s' % (b[0], ', times changed' if b[:2] == a[:2] else '')))
+    out = d.out.decode('latin-1')
+    for rel in keep:
+        if '%s/%s' % (scen.root, rel) in [l.split(' -> ')[0] for l in out.split('\n')]:
+            probs.append('-d lists %s as a message' % rel)
+    listed = [l.split(' -> ')[0].replace(scen.root + '/', '') for l in out.split('\n') if ' -> ' in l and l.startswith(scen.root)]
+    if sorted(set(listed)) != ['src/cur/2.host:2,S', 'src/new/1.host']:
+        probs.append('-d lists %s, the messages are src/new/1.host and src/cur/2.host:2,S' % sorted(set(listed)))
+    for rel in SPECIALS:
+        hits = touched(r, rel.rsplit('/', 1)[1], names=MUTATING | {'openat', 'open'})
+        if hits:
+            probs.append('%s is the argument of %s' % (rel, [h.replace(scen.root, R) for h in hits[:2]]))
+    # the two messages: sorted as the rule says, exactly once; nothing else appears in a maildir
+    files = {rel: v for rel, v in r.final.items() if v[0] == 'file' and re.search(r'(^|/)(new|cur)/[^/]+$', rel)}
+    for i, rel0 in ((1, 'src/new/1.host'), (2, 'src/cur/2.host:2,S')):
+        where = [rel for rel, v in files.items() if ws.msg_id(v[1]) == i]
+        if rule == 'discard':
+            if where:
+                probs.append('message %d still exists after discard' % i)
+            continue
+        want_md = NONREG_RULES[rule][1]
+        if len(where) != 1 or not where[0].startswith('%s/%s/' % (want_md, rel0.split('/')[1])):
+            probs.append('message %d is at %s, expected once in %s/%s' % (i, where, want_md, rel0.split('/')[1]))
+            continue
+        data = files[where[0]][1]
+        want = scen.initial[rel0][1]
+        if rule == 'label':
+            want = with_headers(want, [LABEL_LINE])
+        if rule == 'add-header':
+            want = with_headers(want, [ADDED_LINE])
+        if data != want:
+            probs.append('message %d has content %r' % (i, data[:160]))
+        if rule == 'flags' and 'F' not in name_letters(where[0]):
+            probs.append('message %d: flags not applied (%s)' % (i, where[0]))
+    for rel, v in files.items():
+        if ws.msg_id(v[1]) not in (1, 2):
+            probs.append('a file that is not one of the messages appeared in a maildir: %s' % rel)
+    stdins = sorted(stdin for argv, stdin, fds, target in [parse_helper(l) for l in r.helper])
+    wanted = sorted([scen.initial['src/new/1.host'][1], scen.initial['src/cur/2.host:2,S'][1]]) if rule == 'exec-stdin' else []
+    if stdins != wanted:
+        probs.append('the command ran %d times (on %r), expected %d' % (len(stdins), [ws.msg_id(s) for s in stdins], len(wanted)))
+    return probs
+
+
+def nonregular_stage(rep, tools):
+    jobs = [(rule, dt) for rule in NONREG_RULES for dt in ('real', 'unknown')]
+
+    def one(job):
+        rule, dt = job
+        spec = nonreg_spec(rule)
+        scen = spec.build(tools)
+        try:
+            scen.env_extra = {'VSHIM_DTYPE': 'unknown'} if dt == 'unknown' else {}
+            scen.args = ['-d']
+            d = scen.run(trace=False, timeout=20)
+            scen.reset()
+            scen.args = []
+            r = scen.run(timeout=20)
+            lstats = sum(1 for t in r.calls() if t['name'] == 'fstatat' and 'AT_SYMLINK_NOFOLLOW' in t['raw'])
+            return {'rule': rule, 'd_type': dt, 'problems': judge_nonreg(rule, scen, r, d), 'config': scen.config.replace(scen.root, R),
+                    'isfile_calls': lstats}
+        finally:
+            scen.cleanup()
+
+    with cf.ThreadPoolExecutor(vlib.NCPU) as ex:
+        results = list(ex.map(one, jobs))
+    for x in results:
+        if x['problems']:
+            rep.finding('unlisted', {'harness': 'process (real binary under the shim)', 'family': 'nonregular', 'rule': x['rule'], 'd_type': x['d_type'],
+                                     'config': x['config'], 'population': {k: list(v) for k, v in SPECIALS.items()}, 'what': x['problems'][:8]})
+    return {'runs': 2 * len(results), 'failing': sum(1 for x in results if x['problems']),
+            'isfile_calls_with_unknown_d_type': sum(x['isfile_calls'] for x in results if x['d_type'] == 'unknown'),
+            'isfile_calls_with_real_d_type': sum(x['isfile_calls'] for x in results if x['d_type'] == 'real')}
+
+
+def process_stage(rep, sc, rng):
+    tools = proc.Tools(sc)
+    W = world.WorldCheck(sc, tools)
+    return sequence_stage(rep, tools, W, rng), nonregular_stage(rep, tools)
+
+
 def run(rep):
     rng = random.Random(rep.seed)
     sc = vlib.Scratch()
@@ -78,131 +488,220 @@ def run(rep):
         'with the pattern sources; regex/command/stat/time are the platform\'s (FFI) on the model side',
         'modelled, not verified: TAILQ list primitives, strlcpy/pathslice buffers (C18), regexec',
     ])
-    cases = []
-    # 1. witnesses of the pinned finding
-    wit = []
-    for cls, ws in WITNESSES.items():
-        for conf, pats, truth in ws:
-            c = ec.Case(conf, pats, gen_rules.message(random.Random(7), truth))
-            wit.append((cls, c))
-            cases.append(c)
-    # 2. bounded-exhaustive small trees, all valuations of the atoms used
-    nsmall = 0
-    limit = 2500 if rep.tier == 'quick' else 10 ** 9
-    trees = [t for t in small_trees() if valid(t)]
-    rng.shuffle(trees)
-    for t in trees:
-        ctr, pats = [0], []
-        conf = 'maildir "~/md" {\n%s}\n' % render(t, ctr, pats)
-        na = min(ctr[0], gen_rules.ATOMS)
-        for bits in itertools.product([False, True], repeat=na):
-            truth = list(bits) + [False] * (gen_rules.ATOMS - na)
-            cases.append(ec.Case(conf, list(pats), b''.join(b'X-%d: %d\n' % (i, 1 if truth[i] else 0) for i in range(gen_rules.ATOMS)) + b'To: a@b\n\nbody\n'))
-            nsmall += 1
-        if nsmall >= limit:
-            break
-    # 3. random trees with every operator, attachments, errors, dates, interpolation
-    nrand = 1500 if rep.tier == 'quick' else 60000
-    for _ in range(nrand):
-        g = gen_rules.Gen(rng, depth=rng.choice([0, 1, 2, 2, 3]), rules_max=rng.choice([2, 3, 4]))
-        conf = g.config()
-        pats = list(g.patterns)
-        for _ in range(3):
-            truth = [rng.random() < 0.5 for _ in range(gen_rules.ATOMS)]
-            date = None
-            if rng.random() < 0.5:
-                t = ec.NOW - rng.choice([0, 1, 30, 59, 60, 61, 3599, 3600, 3601, 100000, -5])
-                date = ec.gm(t) + b' ' + rng.choice([b'+0000', b'-0000', b'GMT', b'+0100', b'-0330', b'UTC'])
-            cases.append(ec.Case(conf, pats, gen_rules.message(rng, truth, mime=rng.random() < 0.3, date=date),
-                                 rng.choice(['new', 'cur']), rng.choice(['1.host', '2.host:2,S', '3.host:2,FS', '4.host:2,']),
-                                 rng.choice(['0', '0', '1'])))
-    ec.run_cases(h, env, cases)
+    # ---- unit level: generated, evaluated, compared and DROPPED in chunks (only counters, the first offenders and a few samples are kept) ----
+    limit = 2500 if rep.tier == 'quick' else 300000          # bounded-exhaustive family: cases (trees are shuffled, so a limit samples)
+    nrand = 1500 if rep.tier == 'quick' else 20000           # random trees (x 3 messages)
+    natt = 250 if rep.tier == 'quick' else 6000
+    count = {'small': 0, 'wit': 0, 'total': 0}
 
-    # the tree the real parser built must be the one the documented grammar defines
-    shape_bad = []
-    seen_conf = set()
-    for c in cases:
-        if c.ast is None or c.conf in seen_conf:
-            continue
-        seen_conf.add(c.conf)
-        try:
-            exp = confshape.expected_shape(c.conf)
-        except confshape.ShapeError as e:
-            exp = ['unparsable-by-reference: %s' % e]
-        got = confshape.dump_shape(c.ast)
-        if exp != got:
-            shape_bad.append((c, exp, got))
-    for c, exp, got in shape_bad[:3]:
-        rep.finding('unlisted', dict(c.readable(), grammar_tree=' '.join(exp), parser_tree=' '.join(got),
-                                     what='the parser built a different formula / rule structure than the grammar defines (precedence, associativity, nesting)'))
-    corr_bad, spec_bad, faults = [], [], []
+    def gen_cases():
+        """(case, tag) in the order families 1-4; tag: None | ('wit', class) | ('att', part kinds, documented outcome)"""
+        # 1. witnesses of the pinned finding
+        for cls, wss in WITNESSES.items():
+            for conf, pats, truth in wss:
+                count['wit'] += 1
+                yield ec.Case(conf, pats, gen_rules.message(random.Random(7), truth)), ('wit', cls)
+        # 2. bounded-exhaustive small trees, all valuations of the atoms used
+        trees = [t for t in small_trees() if valid(t)]
+        rng.shuffle(trees)
+        for t in trees:
+            ctr, pats = [0], []
+            conf = 'maildir "~/md" {\n%s}\n' % render(t, ctr, pats)
+            na = min(ctr[0], gen_rules.ATOMS)
+            for bits in itertools.product([False, True], repeat=na):
+                truth = list(bits) + [False] * (gen_rules.ATOMS - na)
+                count['small'] += 1
+                yield ec.Case(conf, list(pats), b''.join(b'X-%d: %d\n' % (i, 1 if truth[i] else 0) for i in range(gen_rules.ATOMS)) + b'To: a@b\n\nbody\n'), None
+            if count['small'] >= limit:
+                break
+        del trees
+        # 3. random trees with every operator, attachments, errors, dates, interpolation
+        for _ in range(nrand):
+            g = gen_rules.Gen(rng, depth=rng.choice([0, 1, 2, 2, 3]), rules_max=rng.choice([2, 3, 4]))
+            conf = g.config()
+            pats = list(g.patterns)
+            for _ in range(3):
+                truth = [rng.random() < 0.5 for _ in range(gen_rules.ATOMS)]
+                date = None
+                if rng.random() < 0.5:
+                    t = ec.NOW - rng.choice([0, 1, 30, 59, 60, 61, 3599, 3600, 3601, 100000, -5])
+                    date = ec.gm(t) + b' ' + rng.choice([b'+0000', b'-0000', b'GMT', b'+0100', b'-0330', b'UTC'])
+                yield ec.Case(conf, pats, gen_rules.message(rng, truth, mime=rng.random() < 0.3, date=date),
+                              rng.choice(['new', 'cur']), rng.choice(['1.host', '2.host:2,S', '3.host:2,FS', '4.host:2,']),
+                              rng.choice(['0', '0', '1'])), None
+        # 4. attachment { } action blocks and attachment conditions over multipart messages with ONE part that cannot be evaluated, placed
+        #    before / between / after parts that match (own random stream: families 1-3 stay what they were)
+        for conf, pats, msg, kinds, expect in gen_rules.attachment_error_cases(random.Random(rep.seed + 2), natt):
+            yield ec.Case(conf, pats, msg), ('att', kinds, expect)
+
     stats = {'compared_model': 0, 'compared_spec': 0, 'outside_spec_domain': 0, 'crosses': 0, 'conferr': 0, 'MATCH': 0, 'NOMATCH': 0, 'ERROR': 0}
-    witset = set(id(c) for _, c in wit)
-    for c in cases:
+    attstats = {'cases': 0, 'compared_with_documented_semantics': 0, 'error_part_before_matching_part': 0, 'result': {}, 'failures': 0}
+    # first offenders (payloads, ready to report) and totals
+    shape_bad, corr_bad, spec_bad, faults, wit_found, att_bad = [], [], [], [], [], []
+    tot = {'shape': 0, 'corr': 0, 'spec': 0, 'faults': 0}
+    seen_conf, nontriv = set(), set()
+    samples = []
+    srng = random.Random(rep.seed + 3)
+
+    def planned(sp):
+        return (sp[0], sp[2] if sp[0] == 'MATCH' else [], sp[3] if sp[0] == 'MATCH' else '-')
+
+    def absorb(c, tag):
+        count['total'] += 1
+        # the tree the real parser built must be the one the documented grammar defines
+        if c.ast is not None:
+            key = hash(c.conf)
+            if key not in seen_conf:
+                seen_conf.add(key)
+                try:
+                    exp = confshape.expected_shape(c.conf)
+                except confshape.ShapeError as e:
+                    exp = ['unparsable-by-reference: %s' % e]
+                got = confshape.dump_shape(c.ast)
+                if exp != got:
+                    tot['shape'] += 1
+                    if len(shape_bad) < 3:
+                        shape_bad.append(dict(c.readable(), grammar_tree=' '.join(exp), parser_tree=' '.join(got),
+                                              what='the parser built a different formula / rule structure than the grammar defines (precedence, '
+                                                   'associativity, nesting)'))
+        is_wit = tag is not None and tag[0] == 'wit'
+        if tag is not None and tag[0] == 'att':
+            # attachment blocks are outside the domain of `S eval` (NOTWF): the documented outcome of the attachment family is computed
+            # by gen_rules.attachment_expectation (every part visited / first match or error decides) and compared here
+            kinds, (wtri, wexec) = tag[1], tag[2]
+            attstats['cases'] += 1
+            if c.impl is not None and c.note not in ('fault', 'noeval'):
+                itri, inp, ilast = ec.impl_plan(c)
+                attstats['result'][itri] = attstats['result'].get(itri, 0) + 1
+                attstats['compared_with_documented_semantics'] += 1
+                if 'yes' in kinds[kinds.index('err') + 1:]:
+                    attstats['error_part_before_matching_part'] += 1
+                nexec = sum(1 for k in inp if k.startswith('exec:'))
+                if itri != wtri or (wexec is not None and nexec != wexec):
+                    attstats['failures'] += 1
+                    if len(att_bad) < 4:
+                        att_bad.append(dict(c.readable(), parts=kinds, implementation=[itri, 'exec x %d' % nexec], documented=[wtri, 'exec x %s' % wexec],
+                                            what='attachment block / condition: an attachment { } block is evaluated for every part - an error in '
+                                                 'any part is an error, it selects its exec once per matching part; an attachment condition tries '
+                                                 'the parts in order and the first match or error decides'))
         if c.note == 'fault':
-            faults.append(c)
-            continue
+            tot['faults'] += 1
+            if len(faults) < 5:
+                faults.append(dict(c.readable(), implementation=c.impl))
+            return
         if c.note == 'noeval':
             stats['conferr'] += 1
-            continue
+            return
         if c.model is None:
-            continue
+            return
         stats['compared_model'] += 1
         tri = c.impl.split(' ')[0]
         stats[tri] = stats.get(tri, 0) + 1
+        if c.impl.startswith('MATCH') and c.conf.count('match') >= 2:
+            nontriv.add(hash((c.conf, c.msg)))
+        # coverage samples: a reservoir of 3
+        if len(samples) < 3:
+            samples.append(dict(c.readable(), implementation=ec.impl_core(c)[:300], specification=c.spec))
+        elif srng.randrange(stats['compared_model']) < 3:
+            samples[srng.randrange(3)] = dict(c.readable(), implementation=ec.impl_core(c)[:300], specification=c.spec)
         if ec.impl_core(c) != ec.model_core(c):
-            corr_bad.append(c)
+            tot['corr'] += 1
+            if len(corr_bad) < 5:
+                corr_bad.append(dict(c.readable(), implementation=ec.impl_core(c), model=ec.model_core(c)))
         sp = ec.spec_plan(c)
         if sp is None:
             stats['outside_spec_domain'] += 1
-            continue
+            return
+        if is_wit:
+            # pinned finding: confirmed by its witnesses (implementation deviates from the documented outcome)
+            itri, inp, ilast = ec.impl_plan(c)
+            if sp[1] and (itri, inp, ilast) != planned(sp):
+                wit_found.append((tag[1], dict(c.readable(), implementation=[itri, inp, ilast], documented=list(sp))))
         if sp[1]:
             stats['crosses'] += 1
-            if id(c) not in witset:
-                continue
+            if not is_wit:
+                return
         stats['compared_spec'] += 1
         itri, inp, ilast = ec.impl_plan(c)
-        if (itri, inp, ilast) != (sp[0], sp[2] if sp[0] == 'MATCH' else [], sp[3] if sp[0] == 'MATCH' else '-'):
-            if id(c) in witset or sp[1]:
-                continue
-            spec_bad.append((c, (itri, inp, ilast), sp))
-    # pinned finding: confirmed by its witnesses (implementation deviates from the documented outcome)
-    for cls, c in wit:
-        sp = ec.spec_plan(c)
-        if sp is None or c.impl is None:
-            continue
-        itri, inp, ilast = ec.impl_plan(c)
-        if sp[1] and (itri, inp, ilast) != (sp[0], sp[2] if sp[0] == 'MATCH' else [], sp[3] if sp[0] == 'MATCH' else '-'):
-            rep.finding(cls, dict(c.readable(), implementation=[itri, inp, ilast], documented=list(sp)))
-    for c, got, sp in spec_bad[:5]:
-        rep.finding('unlisted', dict(c.readable(), implementation=list(got), documented=list(sp), model=c.model,
+        if (itri, inp, ilast) != planned(sp):
+            if is_wit or sp[1]:
+                return
+            tot['spec'] += 1
+            if len(spec_bad) < 5:
+                spec_bad.append(dict(c.readable(), implementation=[itri, inp, ilast], documented=list(sp), model=c.model,
                                      what='executed plan differs from the documented rule semantics'))
-    for c in faults[:5]:
-        rep.finding('sanitizer-fault', dict(c.readable(), implementation=c.impl))
-    if corr_bad and not rep.violations:
+
+    def flush(chunk):
+        ec.run_cases(h, env, [c for c, tag in chunk])
+        for c, tag in chunk:
+            absorb(c, tag)
+
+    chunk = []
+    for item in gen_cases():
+        chunk.append(item)
+        if len(chunk) >= UNIT_CHUNK:
+            flush(chunk)
+            chunk = []
+    if chunk:
+        flush(chunk)
+    del chunk
+    nsmall = count['small']
+    for p in shape_bad:
+        rep.finding('unlisted', p)
+    for cls, p in wit_found:
+        rep.finding(cls, p)
+    for p in spec_bad:
+        rep.finding('unlisted', p)
+    for p in faults:
+        rep.finding('sanitizer-fault', p)
+    for p in att_bad:
+        rep.finding('unlisted', p)
+    if tot['corr'] and not rep.violations:
         rep.violation({'obligation': 'correspondence expr.c/match.c <-> Model/Eval.lean: the real evaluator and the Lean model disagree; the '
                                      'documented semantics evaluated on the implementation output found no failing input',
-                       'disagreements': len(corr_bad),
-                       'examples': [dict(c.readable(), implementation=ec.impl_core(c), model=ec.model_core(c)) for c in corr_bad[:5]]}, False)
+                       'disagreements': tot['corr'], 'examples': corr_bad}, False)
+    seqstats, nonregstats = process_stage(rep, sc, random.Random(rep.seed + 1))
     vlib.lean_conclude(rep)
-    nontriv = set((c.conf, c.msg) for c in cases if c.model is not None and c.impl.startswith('MATCH') and c.conf.count('match') >= 2)
     rep.coverage.update({
-        'evaluations': len(cases),
+        'evaluations': count['total'] + seqstats['runs'] + nonregstats['runs'],
         'distinct_nontrivial': len(nontriv),
         'rule': 'bounded-exhaustive trees (<= 2 rules per block, one nesting level, label/move x none/pass/break, negation) with all '
                 'valuations (%d cases%s) + %d random trees x 3 messages (every operator, attachment conditions and blocks, command/'
                 'isdirectory/date/body/header atoms, errors, interpolation templates, pass/break also in unusual places) + %d finding '
                 'witnesses; each evaluated by the real parser + expr_eval + matches_interpolate and compared with the Lean model '
                 '(exact match list) and, inside the specification domain, with the documented rule semantics; non-trivial = a tree of '
-                '>= 2 rules that matched; distinct by (config, message)' % (nsmall, ', sampled' if nsmall >= limit else ', complete', nrand, len(wit)),
+                '>= 2 rules that matched; distinct by (config, message)' % (nsmall, ', sampled' if nsmall >= limit else ', complete', nrand, count['wit']),
         'exhaustive': nsmall < limit,
-        'samples': [dict(c.readable(), implementation=ec.impl_core(c)[:300], specification=c.spec) for c in rng.sample([c for c in cases if c.model], 3)],
+        'samples': samples,
         'distribution': stats,
-        'correspondence_mismatches': len(corr_bad),
-        'spec_failures': len(spec_bad),
+        'correspondence_mismatches': tot['corr'],
+        'spec_failures': tot['spec'],
         'configs_shape_checked': len(seen_conf),
-        'shape_mismatches': len(shape_bad),
-        'sanitizer_faults': len(faults),
+        'shape_mismatches': tot['shape'],
+        'sanitizer_faults': tot['faults'],
+        'attachment_error_parts': attstats,
+        'attachment_error_parts_rule': 'attachment { ... } action blocks (alone, with move / label / pass) and attachment conditions (plain, or, negated) '
+                                       'over multipart messages of 2-4 parts with ONE undecodable base64 part before / between / after parts that match '
+                                       'or do not; compared with the Lean model and with the documented semantics like every other evaluation',
+        'process_sequences': seqstats,
+        'process_sequences_rule': 'real binary under the shim: every single action, every ordered pair of distinct actions and a sample of the '
+                                  'triples (thorough: all triples, sampled quadruples) from {move A, flag new, flag !new, flags "F", label, '
+                                  'add-header, exec, exec stdin, discard (alone or after a pass)}, message in new and in cur, as one rule and as two '
+                                  'rules joined by pass, between a rule that does not match and a rule that would (first match wins), with a second '
+                                  'message no rule matches.  Judged against the documented meaning: exit 0; the message exactly once at Spec.dest '
+                                  '(driver `S dest`; sequences outside Spec.destOK = known finding F12 of C09 are not generated), flags = old '
+                                  '+/- S + F, content = original + X-Label / X-Added iff such an action was selected, modification time kept '
+                                  'unless rewritten, gone iff discard; the helper ran once per exec, in order, exec stdin with the message as it '
+                                  'was at that point; the unmatched message keeps name, content, timestamps and is named by no mutating call; no '
+                                  'stray file.  Every run also followed call by call through Model.mainP (`M conform`, final tree compared)',
+        'process_nonregular': nonregstats,
+        'process_nonregular_rule': 'src/new and src/cur hold two messages and symbolic links (to a regular file outside, to messages of the same '
+                                   'maildir, to a directory, dangling), a FIFO and a sub-directory; rules match all move / discard / label / add-header '
+                                   '/ flags / exec stdin; readdir reports the real d_type and, second run, DT_UNKNOWN (shim VSHIM_DTYPE=unknown, isfile() '
+                                   'path).  Judged: every such entry, its target and the sub-directory content unchanged (lstat kind, link target, '
+                                   'times) after the real run and after -d, none listed by -d, none the argument of a traced call other than '
+                                   'readdir/fstatat, the two messages sorted as the rule says, the command run on them only.  Not followed through '
+                                   'Model.mainP (the model\'s directories hold regular files only)',
     })
     rep.assumptions += ['evaluations whose result is decided by a pass/action pending from an enclosing block are excluded (pinned finding)',
                         'matchers whose value depends on the match list (back-references in command/isdirectory, old after flags) are outside the spec domain']
@@ -214,6 +713,34 @@ def replay(rep, path):
     sc = vlib.Scratch()
     h, env = ec.harness(sc)
     vlib.lean_gate(rep, 'C03', sc, [])
+    if j.get('family') in ('sequence', 'nonregular'):
+        # process-level finding: rebuild the scenario, run the real binary again and judge it again
+        tools = proc.Tools(sc)
+        if j['family'] == 'sequence':
+            sub, seq, split = j['source_subdir'], tuple(j['actions']), j['pass_after']
+            exdev = bool(j.get('dstA_on_other_device'))
+            spec = seq_spec(sub, seq, split, exdev)
+            scen = spec.build(tools)
+            r = scen.run()
+            probs = judge_seq(sub, seq, j['documented_place'], scen, r, exdev)
+        else:
+            spec = nonreg_spec(j['rule'])
+            scen = spec.build(tools)
+            scen.env_extra = {'VSHIM_DTYPE': 'unknown'} if j['d_type'] == 'unknown' else {}
+            scen.args = ['-d']
+            d = scen.run(trace=False, timeout=20)
+            scen.reset()
+            scen.args = []
+            r = scen.run(timeout=20)
+            probs = judge_nonreg(j['rule'], scen, r, d)
+        print('config:\n%s' % scen.config.replace(scen.root, R))
+        print('exit status %r, stderr %r' % (r.status, r.err[-400:].decode('latin-1').replace(scen.root, R)))
+        print('final tree: %s' % sorted(rel for rel, v in r.final.items() if v[0] != 'dir' and not rel.startswith(('home', 'tmp'))))
+        for p in probs:
+            print('PROBLEM %s' % (p if isinstance(p, str) else '[%s] %s' % p))
+        scen.cleanup()
+        rep.coverage.update({'evaluations': 1, 'distinct_nontrivial': 1})
+        return
     js = j.get('examples', [j])
     for e in js:
         req = e['request']
